@@ -182,7 +182,7 @@ static void one_case(vh::Ctx & c, uint64_t idx)
 
 int main(int argc, char ** argv)
 {
-  return vh::run(argc, argv, "C01", {300000, 50000000}, one_case, [](vh::Ctx & c) {
+  return vh::run(argc, argv, "C01", {1500000, 50000000}, one_case, [](vh::Ctx & c) {
       c.count("loop_hook_calls", vh::loopwatch().calls);
     });
 }
